@@ -142,6 +142,25 @@ broken translator obligation):
                A raising construct anywhere else, or in a function not declared `exc:`, is unsupported.
   nested def : `def f(x, ...): return e` inside a function (no defaults / decorators, `e` must not read variables
                that the enclosing function assigns): calls `f(a)` are expanded in place (`let x := a; e`).
+  structured : (fifth round) parameter / variable / result types `key` (an opaque hashable object: `Nat`), `int`,
+               `tup2`, `slice`, `bool`, `opt[T]`, `list[T]`, `dict[K,V]` (the association list of the items in
+               insertion order, keys unique), `union[Cls(field:T,...)|...]` (instances of the listed record classes;
+               anything else is the constructor `other`; the inductive type `<f>_<param>_elem` is emitted in front of the
+               function).  "var:<name>=dict[K,V]" declares a local dict: it must be created exactly once, by `{}`,
+               a dict comprehension `{k: e for k in D}`, `defaultdict(list)`, `defaultdict(lambda: <int>)` or
+               `defaultdict(lambda: defaultdict(list))` (that statement fixes what a missing key gives: KeyError or
+               the factory's value).  `d[k]` (KeyError / default; READING a defaultdict also inserts the default - the
+               translation keeps the value only, which `check_dict_uses` allows when the insertion cannot be
+               observed), `d.get(k, x)`, `d[k] = v` (`pyDictSet`: in place, or appended), `d[k1]..[kn].append(v)` on
+               defaultdicts (`pyDictMod`), `iteritems(d)` / `d.items()` as a `for` iterable (also of a raising
+               expression such as `vr[vertex]`), `isinstance(v, Cls)` on a union-typed loop variable as an `if` test
+               (a `match`; the fields `v.f` are variables `v_f` in the branch, optional fields are tested with
+               `is None`), `slice(a, b)` values, `x.start` / `x.stop`; on an optional slice that is not known to be a
+               slice `x.stop` is a raising expression (AttributeError) and `d[k] = x` stores the optional as it is;
+               after `x = slice(a, b)` the value is known until the next loop / merge.  "env:<attr>=T;getitem=K->V"
+               declares an object of the environment (`machine`): its declared attributes are parameters, `obj[k]` is a
+               call of the function parameter `<obj>_getitem : K -> Except String V` (what the object answers,
+               value or exception, is an input of the generated definition).
 Semantics: Python ints are unbounded -> Lean `Int`; `//` = `Int.fdiv`,
 `%` = `Int.fmod` (Python's floor semantics; a ZERO divisor - Python: ZeroDivisionError - is NOT modelled: the companion
 theorems state `≠ 0` hypotheses wherever a divisor is not a non-zero literal), bit operations = Mathlib's
